@@ -34,6 +34,8 @@ var boundedRunners = map[string]boundedSpec{
 		Quick: map[string]string{"VERIF_BOUND_TREES": "6"}, Thorough: map[string]string{"VERIF_BOUND_TREES": "60"}},
 	"c16_history": {File: "c16_proofs_test.go", PkgDir: "store", Test: "TestVerifBoundedC16History",
 		Quick: map[string]string{"VERIF_BOUND_HISTORIES": "12"}, Thorough: map[string]string{"VERIF_BOUND_HISTORIES": "300"}},
+	"c13_committee": {File: "c13_committee_test.go", PkgDir: "fsm", Test: "TestVerifBoundedC13",
+		Quick: map[string]string{"VERIF_BOUND_POPULATIONS": "40"}, Thorough: map[string]string{"VERIF_BOUND_POPULATIONS": "1500"}},
 	"c07_clone": {File: "c07_clone_test.go", PkgDir: "fsm", Test: "TestVerifBoundedC07",
 		Quick: map[string]string{"VERIF_BOUND_TRACKERS": "200"}, Thorough: map[string]string{"VERIF_BOUND_TRACKERS": "20000"}},
 	"c10_history": {File: "c10_iter_test.go", PkgDir: "store", Test: "TestVerifBoundedC10History",
